@@ -748,6 +748,8 @@ class Interp:
             if a_ in _KINDS['number'] and b_ in _KINDS['number']:
                 return a_ == b_
             return UNK
+        if path == 'jax.ShapeDtypeStruct' and args and isinstance(args[0], (tuple, list)) and all(isinstance(x_, int) for x_ in args[0]):
+            return StructLeaf(tuple((frozenset(), x_) for x_ in args[0]))
         if path == 'jnp.iinfo' and len(args) == 1:
             x = args[0]
             if isinstance(x, IInfo):
